@@ -109,7 +109,9 @@ let p_parse_desc (t : string) : p_dcfg =
       pc_rk = nat_of_int (ios rk); pc_rs = p_parse_script rs; pc_ws = p_parse_script ws;
       pc_cs = p_parse_script cs }
   | _ -> failwith "bad desc"
-let p_parse_op (t : string) : p_op =
+let rec p_parse_opx (t : string) : p_opx =
+  if t.[0] = 'I' then PXIntr else PX (p_parse_op t)
+and p_parse_op (t : string) : p_op =
   let num i = nat_of_int (ios (String.sub t i (String.length t - i))) in
   match t.[0] with
   | 'p' -> POPoll false
@@ -135,12 +137,14 @@ let p_handle (p : string) : string =
       | "/" :: tl -> (List.rev acc, tl) | x :: tl -> cut (x :: acc) tl | [] -> (List.rev acc, []) in
     let (ds, ops) = cut [] rest in
     let cfg = List.map p_parse_desc ds in
-    let ops = List.map p_parse_op (List.filter (fun s -> s <> "") ops) in
+    let opsx = List.map p_parse_opx (List.filter (fun s -> s <> "") ops) in
+    (* the guards of the agreement theorems speak about the ordinary operations *)
+    let ops = List.filter_map (function PX o -> Some o | PXIntr -> None) opsx in
     let n = List.length cfg in
     let b = Buffer.create 256 in
     let logs = ref [] in
     List.iter (fun (tag, be) ->
-      let s = p_run be cfg ops in
+      let s = p_runx be cfg opsx in
       let l = p_log s in
       let per = List.init n (fun d -> p_log_s d l) in
       logs := per :: !logs;
@@ -248,6 +252,12 @@ let s_run (epoll : bool) (ops : string list) : string * bool * int =
            | _ -> failwith "bad deferred reg")
        | 'a' -> st := do_advance !st (n_of_string rest)
        | 'W' -> if ios rest > 0 then busy := true      (* descriptors that stay ready: the poller never sleeps *)
+       | 'I' ->      (* one iteration whose select / epoll_wait is interrupted (EINTR) *)
+         let base = int_of_n !st.nser in
+         List.iteri (fun i (_, l) -> Hashtbl.replace labels (base + i) l) !pend_loop;
+         (match runonce_intr t_alloc t_pick !st (List.map fst !pend_loop) yes with
+          | Some s' -> st := s' | None -> failwith "oof");
+         pend_loop := []
        | 'x' | 'y' ->
          let b = if o.[0] = 'x' || !busy then N0 else n_of_string rest in
          let base = int_of_n !st.nser in
@@ -273,9 +283,10 @@ let s_handle (p : string) : string =
   let sleeps = List.exists (fun o -> o <> "" && o.[0] = 'y') ops in
   let comp = List.exists (fun o -> o <> "" && (o.[0] = 'L' || o.[0] = 'D')) ops in
   let busyc = List.exists (fun o -> o <> "" && o.[0] = 'W') ops in
+  let intr = List.exists (fun o -> o <> "" && o.[0] = 'I') ops in
   let kind = String.make 1 p.[0] in
   Printf.sprintf "se=%s;ss=%s;early=0;class=%s:%s%s%s%s%s" te ts kind (if big then "over32bit-us" else "small")
-    (if fired > 0 then "+fire" else "") (if fired > 32 then "+many" else "") ((if sleeps then "+sleep" else "") ^ (if comp then "+callbacks" else "") ^ (if busyc then "+busy" else ""))
+    (if fired > 0 then "+fire" else "") (if fired > 32 then "+many" else "") ((if sleeps then "+sleep" else "") ^ (if comp then "+callbacks" else "") ^ (if busyc then "+busy" else "") ^ (if intr then "+eintr" else ""))
     (if te <> ts then "+ms-truncation" else "")
 (* constants query: the regenerated Gen.v values against what the linked code uses *)
 let k_handle () : string =
